@@ -77,6 +77,26 @@ def check_labels(h: Harness, site, spec, b, v):
     h.agree(site, ["labels", line_spec, c], labs, nontrivial=nontrivial)
     h.holds(site, "labels-differ-from-structure", ["prop_labels", line_spec, c, labs],
             f"gengy_* metadata differs from an independent traversal of {s[:240]}", [sx(line_spec), s])
+    # the type index of the root lists the nodes of each type in the order a traversal meets them (the node itself, then its fields in
+    # declaration order, containers element by element): the operators pick "the i-th node of type T" by position
+    if type(v) in b.index and isinstance(getattr(v, "gengy_types_this_way", None), dict):
+        order: dict = {}
+
+        def pre(x):
+            if isinstance(x, (list, tuple)):
+                for e in x:
+                    pre(e)
+            elif type(x) in b.index:
+                order.setdefault(type(x), []).append(id(x))
+                for n_ in getattr(type(x), "__gengy_field_names__", ()):
+                    pre(getattr(x, n_, None))
+        pre(v)
+        for t, objs in v.gengy_types_this_way.items():
+            if t in b.index and sorted(id(o) for o in objs) == sorted(order.get(t, [])) and [id(o) for o in objs] != order.get(t, []):
+                h.fail(site, "labels-differ-from-structure",
+                       f"the type index of the root lists the {len(objs)} {t.__name__} nodes of the program in another order than a traversal meets them "
+                       f"(positions {[order[t].index(id(o)) for o in objs][:8]}): {s[:160]}", [sx(line_spec), s, "order"])
+                break
     # the type index of the root lists OBJECTS: exactly the production instances of THIS program (by identity, not by equality)
     if type(v) in b.index and isinstance(getattr(v, "gengy_types_this_way", None), dict):
         mine, todo = {}, [v]
